@@ -82,7 +82,8 @@ def benign_mutations(pid):
             continue
         if pid in meta.get('relevant_properties', []):
             d = os.path.dirname(mf)
-            out.append({'id': 'benign:' + os.path.basename(d), 'kind': 'benign', 'patch': os.path.join(d, 'patch.diff'), 'edits': []})
+            out.append({'id': 'benign:' + os.path.basename(d), 'kind': 'benign', 'patch': os.path.join(d, 'patch.diff'), 'edits': [],
+                        'no_verdict': pid in meta.get('no_verdict_for', [])})
     return out
 
 
@@ -102,6 +103,8 @@ def analyse(pid, repo, tier='quick'):
         # the model's scratch directory is only needed while the rules run (a matrix builds hundreds of models)
         if m is not None:
             shutil.rmtree(m.work, ignore_errors=True)
+            if getattr(m, '_other', None) is not None:
+                shutil.rmtree(m._other.work, ignore_errors=True)
     return rep
 
 
@@ -142,6 +145,9 @@ def run_mutation(pid, mut, repo):
                 res['status'] = 'MISSED(broken)'
         else:
             res['status'] = 'silent' if not v['VIOLATION'] and not v['UNDECIDED'] and not rep.broken else 'FALSE-ALARM'
+            if mut.get('no_verdict') and not v['VIOLATION'] and (v['UNDECIDED'] or rep.broken):
+                # a different algorithm the rule cannot see into: the recorded outcome is "no verdict" (exit 2), never a violation
+                res['status'] = 'no-verdict(expected)'
         return res
     finally:
         shutil.rmtree(d, ignore_errors=True)
@@ -163,7 +169,7 @@ def run_matrix(pid, repo, muts, workers=4):
             if 'violations' in res:
                 new = [v for v in res['violations'] if tuple(v) not in base]
                 res['new_violations'] = new
-                if res['kind'] == 'benign':
+                if res['kind'] == 'benign' and res['status'] != 'no-verdict(expected)':
                     res['status'] = 'silent' if not new and not res['undecided'] and not res['broken'] else 'FALSE-ALARM'
             results.append(res)
     return results
